@@ -105,6 +105,21 @@ class LimitedLayer(object):
                 return LimitedLayer(combined, self.coverage)
         return None
 
+    def get_map(self, query):
+        img = self._layer.get_map(query)
+        own_coverage = getattr(self._layer, 'coverage', None)
+        if img is not None and own_coverage and own_coverage.clip:
+            # the merger clips each image to one coverage, that is the
+            # limit of the authorization: apply the clipping of the layer here
+            from mapproxy.image import ImageSource
+            from mapproxy.image.mask import mask_image
+            image_opts = img.image_opts.copy()
+            image_opts.transparent = True
+            img = ImageSource(
+                mask_image(img.as_image(), query.bbox, query.srs, own_coverage),
+                image_opts=image_opts, cacheable=img.cacheable)
+        return img
+
     def get_info(self, query):
         if self.coverage:
             if not self.coverage.contains(query.coord, query.srs):
